@@ -253,6 +253,29 @@ def build(rng, tier):
             for vid, text, kind in variants:
                 inst = f"{vid}_{j}"
                 cases.append(engcheck.Case(vid, inst, engcheck.std_history(inst, vid, inp), {"inp": inp, "kind": kind + " (initialisers consulted only by negation / aggregation)" if kind != "base" else kind}))
+    # a relation that is a head in SEVERAL non-recursive strata whose rules derive overlapping rows, counted and summed by a later stratum, under ascent_run! / ascent_run_par!:
+    # nothing can pre-fill a relation of ascent_run!, yet a later stratum may find rows that an EARLIER stratum derived (the head update must still probe total and delta)
+    for i in range(2 if tier == "quick" else 6):
+        r5 = rng.fork(f"ov{i}")
+        p = {"rels": [{"arity": 1}, {"arity": 1}, {"arity": 1}, {"arity": 1}, {"arity": 1}],
+             "rules": [{"heads": [(2, [("var", 0)])], "body": [("cl", 0, [("v", 0)], [])]},
+                       {"heads": [(2, [("var", 0)])], "body": [("cl", 1, [("v", 0)], [])]},
+                       {"heads": [(2, [("var", 0)])], "body": [("for", 0, ("range", 2, 5))]},
+                       {"heads": [(3, [("var", 21)])], "body": [("agg", [21], "count", [], 2, ["_"])]},
+                       {"heads": [(4, [("var", 21)])], "body": [("agg", [21], "sum", [20], 2, [("b", 20)])]}]}
+        if i % 2: p["rules"] = [p["rules"][k] for k in (2, 1, 0, 4, 3)]
+        pid = f"ov{i}"
+        variants = [(pid, eng.rs_module(pid, p), "base"), (f"{pid}_run", module_run(f"{pid}_run", p, init_rels={0, 1}), "ascent_run"),
+                    (f"{pid}_runpar", module_run(f"{pid}_runpar", p, par=True, init_rels={0, 1}), "ascent_run_par")]
+        for vid, text, kind in variants:
+            progs[vid] = p; mods.append((vid, text))
+        for j in range(3 if tier == "quick" else 8):
+            a = list(dict.fromkeys((r5.range(0, 6),) for _ in range(r5.range(2, 5))))
+            b = list(dict.fromkeys([a[0]] + [(r5.range(0, 8),) for _ in range(r5.range(1, 4))]))
+            inp = {0: a, 1: b, 2: [], 3: [], 4: []}
+            for vid, text, kind in variants:
+                inst = f"{vid}_{j}"
+                cases.append(engcheck.Case(vid, inst, engcheck.std_history(inst, vid, inp), {"inp": inp, "kind": kind + " (a relation derived by several strata with overlapping rows)" if kind != "base" else kind}))
     # witness of finding F3 (fixed by 8b2e261; replayed on every run and must pass)
     w = {"rels": [{"arity": 2}, {"arity": 1}, {"arity": 2}],
          "rules": [{"heads": [(2, [("var", 0), ("var", 21)])], "body": [("cl", 1, [("v", 0)], []), ("agg", [21], "count", [], 0, [("k", ("var", 0)), "_"])]}]}
@@ -264,7 +287,18 @@ def build(rng, tier):
 
 
 def oracle(c, p, out):
-    return engcheck.check_sets(p, out[-1], engcheck.spec_sets(p, c.meta["inp"]))
+    w = engcheck.check_sets(p, out[-1], engcheck.spec_sets(p, c.meta["inp"]))
+    if w or not c.meta["kind"].startswith("ascent_run"): return w
+    # ascent_run! / ascent_run_par! hand the relation vectors back: as after ascent! + run(), a row that the rules derive is stored ONCE (a row of an initialiser keeps the
+    # multiplicity it had there) - `len()` of a result vector is part of what the packaging must not change
+    _, mult = engcheck.dump_sets(out[-1])
+    for r, d in enumerate(p["rels"]):
+        if d.get("lat"): continue
+        given = {}
+        for t in c.meta["inp"].get(r, []): given[eng.sx_tuple(t)] = given.get(eng.sx_tuple(t), 0) + 1
+        for t, m in mult.get(r, {}).items():
+            if m != max(1, given.get(t, 0)): return f"relation r{r}: the row {t} is stored {m} times (the initialiser holds it {given.get(t, 0)} times; ascent! + run() stores a derived row once)"
+    return None
 
 
 def canon(c, out):
